@@ -159,7 +159,7 @@ func TestC07Binary(t *testing.T) {
 	rec.Rule("binary level, contract mode: `vipnode pool --store=persist --contract.address --contract.rpc --contract.keystore` (operator key in an encrypted key store, pass phrase in the environment) runs against the real pool contract on a simulated chain served by the harness over WebSocket JSON-RPC; the data directory is prepared with a generated credit for the wallet, the chain with generated deposits (the wallet's own, and another wallet's that decides whether the contract can pay); one or two signed pool_withdraw requests over HTTP, then a block; oracle: the withdrawal executes iff deposit+credit >= the binary's minimum (0.005 ETH) and the contract can pay; then the wallet's on-chain ether grows by exactly deposit+credit-0.0025 ETH, its on-chain deposit and stored credit are 0 and the second request pays nothing; otherwise the request fails, nothing is paid and deposit and stored credit (read from the data directory after stopping the pool) are unchanged; non-trivial = a withdrawal that executes or one the contract cannot pay; distinct by amounts")
 	rec.Assume("the harness's JSON-RPC front end of the simulated chain implements only what ethclient needs here (eth_call, eth_estimateGas, eth_sendRawTransaction, eth_getTransactionCount, eth_gasPrice, eth_getCode, eth_getBalance, eth_getLogs, eth_subscribe logs, net_version = 1)")
 	os.Setenv("KEYSTORE_PASSPHRASE", "verif-pass")
-	rapid.Check(t, func(rt *rapid.T) {
+	check(t, func(rt *rapid.T) {
 		operator, w, other := walletIdent(3), walletIdent(0), walletIdent(1)
 		alloc := core.GenesisAlloc{}
 		for _, x := range []ident{operator, w, other} {
